@@ -29,6 +29,7 @@ type Conn struct {
 	Writes   [][]byte
 	Consumed int // bytes handed to Read callers
 	ReadCalls int
+	LastRead time.Time // when a Read call last took bytes off the queue
 	OnWrite  func(c *Conn, b []byte) // called (without the lock) after each Write
 	OnClose  func()
 	FailWrites   int  // the next FailWrites Write calls log their bytes and then fail with a deadline error
@@ -107,6 +108,7 @@ func (c *Conn) Read(b []byte) (int, error) {
 				c.queue[0] = c.queue[0][n:]
 			}
 			c.Consumed += n
+			c.LastRead = time.Now()
 			return n, nil
 		}
 		if c.peerRST {
